@@ -358,7 +358,10 @@ def C09(ctx):
     # odd-numbered traces: clauses of 3..5 distinct variables and an adversarial driver that falsifies the open literals of
     # not-yet-satisfied clauses one by one (every clause is driven to unit through watched and unwatched literals alike)
     record_and_validate(ctx, [("sat_%d" % i, ["record", "sat", "--seed", ctx.seed * 1000 + i, "--segments", segs, "--len", 40,
-                                              "--nmax", 5 + (i % 2)] + (["--attack", 1, "--wide", 1, "--nmax", 6] if i % 2 else []))
+                                              "--nmax", 5 + (i % 2)] + (["--attack", 1, "--wide", 1, "--nmax", 6] if i % 2 else [])
+                                             # every third trace: the solver works over 70 / 130 labels, the CNF's variables sit on scattered labels
+                                             # (two congruent modulo 64); the record is in the compact numbering (monotone embedding)
+                                             + (["--labels", 70 if i % 2 else 130] if i % 3 == 2 else []))
                               for i in range(n)], "TraceUnitProp", "TraceUnitProp.cfg")
 
 
